@@ -405,30 +405,37 @@ def memFilter (s : Shard) (q : Query) (sc : Scope) (md : MemDB) (fam : Nat) : Op
     else some false
   | _, _ => some false
 
-/-- `dataFamily.Filter` + the data-load stage of the family: memory result sets first, then the
-files. A not-found error of the memory database or of the file filter (files overlap the query
-range but none of them holds a queried field and series) makes `dataFamily.Filter` return the
-error; the operator ignores not-found, so the family contributes nothing at all. -/
-def familyCalls (s : Shard) (q : Query) (sc : Scope) (L : List AggType) (fam : Nat) (group : List Nat) : List Arrays :=
-  let f := s.family fam
-  let memR : Option (List Arrays) := match f.mutable_ with
-    | some md =>
-      match memFilter s q sc md fam with
-      | none => none
-      | some true => some (memCalls s q L md fam group)
-      | some false => some []
-    | none => some []
-  let readers := match familyTarget q fam with
-    | some (tLo, tHi) => f.readers.filter (fun (blk : Block) => overlap blk.lo blk.hi tLo tHi)
-    | none => []
-  match memR with
+/-- the memory part of `dataFamily.Filter`: `none` = a not-found error of the memory database. -/
+def memResult (s : Shard) (q : Query) (sc : Scope) (L : List AggType) (fam : Nat) (group : List Nat) :
+    Option (List Arrays) :=
+  match (s.family fam).mutable_ with
+  | some md =>
+    match memFilter s q sc md fam with
+    | none => none
+    | some true => some (memCalls s q L md fam group)
+    | some false => some []
+  | none => some []
+
+/-- the readers of the family whose slot range overlaps the query range (`fileFilter`). -/
+def familyReaders (s : Shard) (q : Query) (fam : Nat) : List Block :=
+  match familyTarget q fam with
+  | some (tLo, tHi) => (s.family fam).readers.filter (fun (blk : Block) => overlap blk.lo blk.hi tLo tHi)
   | none => []
-  | some mem =>
-    if readers.isEmpty then mem
-    else
-      let matched := readers.filter (blockMatches sc)
-      if matched.isEmpty then []
-      else mem ++ matched.flatMap (fun blk => fileCalls s q sc L blk fam group)
+
+/-- memory result sets first, then the files; if files overlap the query range but none of them
+holds a queried field and series, `metricsDataFilter.Filter` returns `ErrNotFound`. -/
+def combineCalls (sc : Scope) (mem : List Arrays) (readers : List Block) (callsOf : Block → List Arrays) : List Arrays :=
+  if readers.isEmpty then mem
+  else if (readers.filter (blockMatches sc)).isEmpty then []
+  else mem ++ (readers.filter (blockMatches sc)).flatMap callsOf
+
+/-- `dataFamily.Filter` + the data-load stage of the family. A not-found error of the memory
+database or of the file filter makes `dataFamily.Filter` return the error; the operator ignores
+not-found, so the family contributes nothing at all. -/
+def familyCalls (s : Shard) (q : Query) (sc : Scope) (L : List AggType) (fam : Nat) (group : List Nat) : List Arrays :=
+  match memResult s q sc L fam group with
+  | none => []
+  | some mem => combineCalls sc mem (familyReaders s q fam) (fun blk => fileCalls s q sc L blk fam group)
 
 /-- leaf result arrays of one group: all calls of all families (ascending), reduced. -/
 def leafGroup (s : Shard) (q : Query) (sc : Scope) (L : List AggType) (fams group : List Nat) : Arrays :=
